@@ -64,6 +64,11 @@ CHECKS = {
    "Every stream that concatenates ≤ 3 (quick) / 4 (thorough) commands from a 60-entry menu (single-line, multi-line compound, here-documents in every position incl. <<- and quoted delimiters, trailing comments, line continuations, blank lines, multi-line quotes/substitutions), each also with the last command lacking its final newline, is read by successive ParseCommands calls from a strings.Reader and a custom RuneScanner; after every call the offset must be the (constructed) end of that command and the result must equal the result of parsing that command's text alone; blank lines give empty results.",
    "Command boundaries are known by construction; comment-only lines are excluded (pinned by go.sh's own tests); streams beyond the menu are not explored.",
    "DESIGN.md §6 C07, §2 E3"),
+ "C08": ("model_checking",
+   "stateless model checking of the implementation (controlled scheduler + DFS) over a bounded-exhaustive space of here-document programs",
+   "32 host templates with 1-3 here-document sites (simple command, pipes, lists, every compound form, function bodies, compound redirections, inside $( ) and backquotes, before && / | + newline, numbered, several on one or on different lines) × {<<, <<-} × 4 delimiter quotings × bodies from a 12-line menu (empty lines, delimiter look-alikes, tab-indented lines, $v, $(c), `c`, backslashes): ≈ 5·10^4 programs in the quick tier, each run under ALL schedules of the lexer/parser pair (one site) or all schedules with ≤ 1 preemption (more sites, which contains both extreme schedules). Per redirection, in operator order: the printed body is byte-identical to the body written, Delim is the delimiter line, the body is split into expansions iff no part of the delimiter was quoted; the same under every schedule; no deadlock on the here-document queue.",
+   "Backslash-newline inside bodies is outside the alphabet; scheduler assumptions as for C06.",
+   "DESIGN.md §6 C08, §2 E2"),
  "C09": ("model_checking",
    "bounded-exhaustive enumeration of sentences × token boundaries × layout changes with a metamorphic oracle",
    "Every accepted sentence among all strings of ≤ 3 (quick) / 4 (thorough) symbols over a 44-symbol alphabet and the derivation sets D0, D1 and the word menu (thorough: D2) is varied at every token boundary, including the boundaries inside '2>' and '<<E': two blanks, tab, no blank where the tokens stay the same, backslash-newline in three forms, leading/trailing blank, comment before a newline or at end of input, newline for ';' and extra newline where the grammar model admits them. Every single application must parse to the same program and return the inserted comment exactly once, in order.",
